@@ -34,6 +34,7 @@ THEOREMS = [
     "Aio.C17.one_resend_per_call",
     "Aio.C17.single_resend_exceeds_max_by_one",
     "Aio.C17.netrc_credential_is_for_this_host",
+    "Aio.C17.redirect_statuses_are_the_documented_five",
 ]
 RULE = ("a case = (method, start URL over 7 origins [same host other port / other scheme / other host / sub-domain / IP] "
         "with or without embedded credentials, caller headers incl. Authorization / Cookie / Proxy-Authorization / Host / "
@@ -56,6 +57,11 @@ RULE = ("a case = (method, start URL over 7 origins [same host other port / othe
         "scheme / sub-domain of the host), session-state cases (header-less calls in which the client installs Authorization itself "
         "- URL / Location userinfo, netrc - followed by header-less calls on the same session to the same and to other origins; "
         "with and without a raise_for_status callback that reads resp.history), explicit proxy= with userinfo followed by plain "
+        "scripted deterministic cases run first on every seed (one per claimed mechanism: origin changes by port / scheme / host / "
+        "sub-domain with duplicated secret headers, default port spelled out, non-redirect statuses 300/304/305/306/399/201 with a "
+        "Location, every table row, documented defaults unpassed with 9/10/11 redirects, every refusal form, URL credentials "
+        "user-only / password-only / overriding, params and Host on the first hop only, Set-Cookie mid-chain, bodies in flight, "
+        "netrc, Location needing requoting with requote_redirect_url on and off), "
         "calls, random mixes (15 % with random faults, 10 % DummyCookieJar, 15 % with follow-up calls to two origins, 6 % "
         "treat_as_secure_origin, 6 % raise_for_status callback). A case is non-trivial when at least one request reached a server; distinct by content.")
 TRUSTED_BASE = [
@@ -72,6 +78,11 @@ TRUSTED_BASE = [
     "replaced by 'no file' / 'empty file'",
     "connection faults are injected by the in-memory server closing the pipe after reading the request; only 'closed before any "
     "response byte' is modelled (Reply.drop), not partial responses",
+    "netrc is a real file (harness/data/c17.netrc via NETRC) parsed by the real netrc_from_env / _auth_header_from_netrc; "
+    "get_env_proxy_for_url runs unpatched on an environment cleared of *_proxy variables; "
+    "yarl's origin() equality is taken as it is: a URL that spells out its default port (http://a.test:80/) has an origin that "
+    "compares UNEQUAL to that of http://a.test/, so the unchanged loop strips credentials on such a same-origin hop (safe direction; "
+    "modelled through Origin.spelled, reported as an observation, not a property violation)",
     "netrc, parse_cookie_header, base64, payload classes (size / consumed / Content-Type of each body kind) are oracle columns",
     "CIMultiDict semantics (pop removes the first occurrence, popall all, item assignment replaces in place) are transcribed and "
     "exercised by the correspondence run (duplicate headers), not verified",
@@ -188,11 +199,12 @@ def host_hdr(o):
     return host if port == DEFAULT_PORT[sch] else f"{host}:{port}"
 
 
-def murl(o, path, cred=None, has_host=True):
-    """model-side Url fields"""
+def murl(o, path, cred=None, has_host=True, spelled=0):
+    """model-side Url fields; `spelled` = 1 when the default port is written out (yarl's origin() of such a URL compares
+    unequal to the origin of the same URL without the port - the loop then treats the hop as cross-origin)"""
     sch, host, port = ORIGINS[o]
     return ",".join([str(0 if sch == "http" else 1), st(host), str(port), "1" if has_host else "0",
-                     st(basic(cred)) if cred else "~", st(host_hdr(o)), st(path)])
+                     st(basic(cred)) if cred else "~", st(host_hdr(o)), st(path), str(spelled)])
 
 
 def resolve(cur, loc):
@@ -213,6 +225,14 @@ def resolve(cur, loc):
         return [("Location", loc["raw"])], "B", None
     cred = tuple(loc["cred"]) if loc.get("cred") else None
     p = loc.get("path")
+    if form == "absport":
+        # the default port spelled out: http://a.test:80/x is the SAME origin as http://a.test/x
+        sch, host, port = ORIGINS[loc["o"]]
+        ui = ((cred[0] if cred[1] == "" else f"{cred[0]}:{cred[1]}") + "@") if cred else ""
+        return [("Location", f"{sch}://{ui}{host}:{port}{p}")], None, (loc["o"], p, cred)
+    if form == "quoted":
+        # loc["raw"] is what the server sends, loc["path"] what must reach the wire (requote on / off)
+        return [("Location", loc["raw"])], None, (o, p, None)
     if form in ("abs", "absupper", "uri"):
         t = (loc["o"], p, cred)
         s = url_str(loc["o"], p, cred, upper=(form == "absupper"))
@@ -355,6 +375,12 @@ def parse_cookie_simple(raw):
     return out
 
 
+DATA_DIR = os.path.join(os.path.dirname(os.path.abspath(__file__)), "data")
+NETRC_FILE = os.path.join(DATA_DIR, "c17.netrc")              # same entries as NETRC above
+NETRC_EMPTY = os.path.join(DATA_DIR, "c17-empty.netrc")
+NETRC_MISSING = os.path.join(DATA_DIR, "no-such-file.netrc")
+
+
 class FakeNetrc:
     def authenticators(self, host):
         return NETRC.get(host)
@@ -395,10 +421,13 @@ async def run_case(case, obs):
     if case.get("params"):
         first_target = start["path"] + "?" + urllib.parse.urlencode(case["params"])
     nxt = cur
+    spelled = [0]       # per hop: is the default port written out in the URL the loop holds (relative targets inherit it)
     for k, r in enumerate(chain):
         hops.append(nxt)
         cur_path = first_target if k == 0 else nxt[1]
         lh, tok, t = resolve((nxt[0], cur_path), r["loc"])
+        fm = r["loc"]["form"]
+        spelled.append(1 if fm == "absport" else spelled[-1] if fm in ("relpath", "rel", "query", "relfrag", "quoted") else 0)
         script.append((r["status"], lh + [("Set-Cookie", c) for c in r.get("set_cookie", [])], r.get("body", 0)))
         loc_tok.append((tok, t))
         if t is None:
@@ -514,7 +543,7 @@ async def run_case(case, obs):
             ref.receive(ORIGINS[o][1], u.path, sc)
 
     # ---- model line
-    cfg = f"{case['max']},{'1' if case['allow'] else '0'},{'1' if case.get('trust') else '0'},{'1' if case.get('retry', True) else '0'}"
+    cfg = f"{10 if case['max'] is None else case['max']},{'1' if case['allow'] else '0'},{'1' if case.get('trust') else '0'},{'1' if case.get('retry', True) else '0'}"
     if start.get("nohost"):
         murl0 = ",".join(["0", "-", "80", "0", "~", "-", st(start["path"])])
     else:
@@ -536,7 +565,7 @@ async def run_case(case, obs):
     for k, r in enumerate(chain):
         tok, t = loc_tok[k]
         if tok is None:
-            tok = "U:" + murl(t[0], t[1], t[2])
+            tok = "U:" + murl(t[0], t[1], t[2], spelled=spelled[k + 1])
         emit(f"{r['status']}:{k}:{tok}")
     fin = case.get("final", {})
     emit(f"{fin.get('status', 200)}:{len(chain)}:N")
@@ -551,15 +580,15 @@ async def run_case(case, obs):
                 "valid_hops": valid_hops})
 
     # ---- the real thing
-    saved = (client_mod.netrc_from_env, client_mod.get_env_proxy_for_url)
-    client_mod.netrc_from_env = lambda: FakeNetrc()
-
-    def no_proxy(url):
-        raise LookupError("no proxies in the C17 harness")
-    client_mod.get_env_proxy_for_url = no_proxy
+    # nothing is stubbed: netrc_from_env parses a real file (NETRC), get_env_proxy_for_url reads the real (emptied) environment
+    saved_env = {k: os.environ.get(k) for k in ("NETRC",)}
+    os.environ["NETRC"] = NETRC_FILE
     out, final, leak_before, leak_after, hist_obs = None, None, None, None, []
     try:
-        async with aiohttp.ClientSession(connector=conn, cookie_jar=jar, response_class=RecResponse,
+        skw = {}
+        if case.get("requote") is False:
+            skw["requote_redirect_url"] = False
+        async with aiohttp.ClientSession(connector=conn, cookie_jar=jar, response_class=RecResponse, **skw,
                                          headers=CIMultiDict(case["session_headers"]) if case.get("session_headers") else None,
                                          trust_env=bool(case.get("trust"))) as s:
             # the default session allows one transparent resend per call; aiohttp's TestClient switches that off
@@ -579,8 +608,11 @@ async def run_case(case, obs):
                     resp.history        # an application-level status check that looks at the chain
                 kw["raise_for_status"] = rfs_cb
             try:
-                r = await s.request(case["method"], start_url, allow_redirects=case["allow"],
-                                    max_redirects=case["max"], **kw)
+                if case["max"] is not None:
+                    kw["max_redirects"] = case["max"]
+                if not (case["allow"] and case.get("allow_default")):
+                    kw["allow_redirects"] = case["allow"]        # else: rely on the documented default (True)
+                r = await s.request(case["method"], start_url, **kw)
                 recording[0] = False
                 final = r._c17_i
                 # what the loop recorded (r._history) is compared with the model; what the caller sees (r.history) is judged by the oracle
@@ -588,6 +620,8 @@ async def run_case(case, obs):
                 out = f"ok,{final}," + (".".join(map(str, hist)) if hist else "~")
                 hist_obs = [{"i": h._c17_i, "status": h.status, "released": h._connection is None and h.closed} for h in r._history]
                 obs["hist_public"] = [h._c17_i for h in r.history]
+                obs["urls_public"] = [str(h.url) for h in r._history] + [str(r.url)]
+                obs["methods_public"] = [h.method for h in r._history] + [r.method]
                 leak_before = len(conn._acquired)
                 r.release()
                 await asyncio.sleep(0)
@@ -628,7 +662,11 @@ async def run_case(case, obs):
                         followup_seen.append({"error": type(e).__name__, "headers": [], "origin": None})
         await srv.shutdown(0)
     finally:
-        client_mod.netrc_from_env, client_mod.get_env_proxy_for_url = saved
+        for k, v in saved_env.items():
+            if v is None:
+                os.environ.pop(k, None)
+            else:
+                os.environ[k] = v
     obs.update({"out": out, "final": final, "leak_before": leak_before, "leak_after": leak_after, "hist": hist_obs,
                 "followup": followup_seen})
     return obs
@@ -694,14 +732,16 @@ async def run_proxy_case(case, obs):
     conn = make_proxy_connector(srv)
     saved_env = dict(os.environ)
     saved = (client_mod.netrc_from_env, helpers_mod.netrc_from_env)
+    import logging
+    quiet = logging.getLogger("aiohttp.client")
+    saved_level = quiet.level
+    quiet.setLevel(logging.ERROR)               # "Could not read .netrc file" is expected for the missing-file variant
     for v in list(os.environ):
         if v.lower().endswith("_proxy") or v == "NETRC":
             del os.environ[v]
     for name, spec in case["env"]:            # insertion order = environment order
         os.environ[name] = proxy_url(spec)
-    nr = {"none": (lambda: None), "empty": (lambda: EmptyNetrc())}[case.get("netrc", "none")]
-    client_mod.netrc_from_env = nr
-    helpers_mod.netrc_from_env = nr
+    os.environ["NETRC"] = {"none": NETRC_MISSING, "empty": NETRC_EMPTY}[case.get("netrc", "none")]    # real files, real parser
     out = None
     try:
         async with aiohttp.ClientSession(connector=conn, trust_env=True) as s:
@@ -727,7 +767,7 @@ async def run_proxy_case(case, obs):
                     pass
         await srv.shutdown(0)
     finally:
-        client_mod.netrc_from_env, helpers_mod.netrc_from_env = saved
+        quiet.setLevel(saved_level)
         os.environ.clear()
         os.environ.update(saved_env)
     obs["out"] = out
@@ -1009,18 +1049,24 @@ def oracle(ctx, case, res, hang):
         ctx.violation("C17/limit/resend-allowance-renewed", case,
                       f"{resends} requests were silently resent after the peer closed the connection (one per call is the allowance); "
                       f"{n_wire} requests on the wire, outcome {res['out']}")
-    if case["max"] >= 1:
-        if n_wire > case["max"] + resends or n_wire > case["max"] + 1:
+    maxr = 10 if case["max"] is None else case["max"]      # documented default
+    if maxr >= 1:
+        if n_wire > maxr + resends or n_wire > maxr + 1:
             ctx.violation("C17/limit/more-requests-than-max-redirects", case,
-                          f"{n_wire} requests on the wire ({resends} of them resends) with max_redirects={case['max']}")
-        elif n_wire > case["max"]:
+                          f"{n_wire} requests on the wire ({resends} of them resends) with max_redirects={maxr}")
+        elif n_wire > maxr:
             # exactly max_redirects + 1, the surplus being the call's single resend
             ctx.violation("C17/limit/single-resend-exceeds-max-redirects-by-one", case,
-                          f"{n_wire} requests on the wire with max_redirects={case['max']}: max_redirects requests were answered AND one "
+                          f"{n_wire} requests on the wire with max_redirects={maxr}: max_redirects requests were answered AND one "
                           f"request was resent after a dropped connection")
     if seen[-1]["dropped"] and str(res["out"]) != "err,disconnected":
         ctx.violation("C17/limit/disconnect-not-reported", case,
                       f"the last request was never answered but the call ended with {res['out']}")
+    for k, r in enumerate(chain):
+        if r["status"] not in REDIRECTS and any(x["hop"] > k for x in seen):
+            ctx.violation("C17/limit/non-redirect-status-followed", case,
+                          f"response {k} has status {r['status']} (not one of {REDIRECTS}) yet another request was made")
+            break
     if not case["allow"] and len(answered) > 1:
         ctx.violation("C17/limit/redirect-followed-with-allow-redirects-false", case, f"{len(answered)} answered requests")
 
@@ -1034,14 +1080,41 @@ def oracle(ctx, case, res, hang):
 
     # history
     out = str(res["out"])
-    if out.startswith("ok") and res.get("hist_public") is not None and res["hist_public"] != [h["i"] for h in res["hist"]]:
+    if out.startswith("ok") and res.get("hist_public") is not None and res["hist_public"] != [h["i"] for h in res["hist"]] \
+            and not (case.get("rfs") == "reads-history" and res["hist_public"] == []):
+        ctx.violation("C17/history/caller-view-differs-from-recorded-history", case,
+                      f"resp.history is {res['hist_public']} for the caller, the loop recorded {[h['i'] for h in res['hist']]}")
+    elif out.startswith("ok") and res.get("hist_public") is not None and res["hist_public"] != [h["i"] for h in res["hist"]]:
         ctx.violation("C17/history/caller-sees-stale-history-after-raise-for-status-callback", case,
                       f"resp.history is {res['hist_public']} for the caller although the loop recorded {[h['i'] for h in res['hist']]}: "
                       f"the property was read (and cached) by the raise_for_status callback before the loop assigned it")
+    if out.startswith("ok") and res.get("urls_public") is not None and not case["start"].get("nohost"):
+        hist_i = [h["i"] for h in res["hist"]] + [res["final"]]
+        hops = res["hops"]
+        for pos, i in enumerate(hist_i):
+            if pos >= len(res["urls_public"]) or i >= len(hops) or i >= res["valid_hops"]:
+                break
+            o, path, _cred = hops[i]
+            want = url_str(o, res["first_target"] if i == 0 else path)
+            got = res["urls_public"][pos]
+            sch, host, port = ORIGINS[o]
+            if got.split("#")[0] != want:
+                ctx.violation("C17/history/url-of-recorded-response-differs", case,
+                              f"response {i} was the answer to {want} but reports url {got}")
+                break
+            first = next((x for x in seen if x["hop"] == i), None)
+            if first is not None and res["methods_public"][pos] != first["method"]:
+                ctx.violation("C17/history/method-of-recorded-response-differs", case,
+                              f"response {i} answered a {first['method']} but reports method {res['methods_public'][pos]}")
+                break
     if out.startswith("ok"):
         f = res["final"]
         hist = [h["i"] for h in res["hist"]]
-        if f in hist:
+        k1 = (f in hist and hist == list(range(f + 1)) and f < len(chain) and chain[f]["status"] in REDIRECTS
+              and chain[f]["loc"]["form"] in ("none", "empty") and case["allow"])
+        if f in hist and not k1:
+            ctx.violation("C17/history/order-or-content", case, f"history {hist} contains the returned response {f}")
+        elif f in hist:
             ctx.violation("C17/history/self-in-history-no-location", case,
                           f"the returned response (index {f}, status {seen and chain[f]['status'] if f < len(chain) else '?'}) "
                           f"is an element of its own history {hist}")
@@ -1342,6 +1415,74 @@ def fault_chains():
                                    "body": {"kind": kind, "data": "BODY"}, "chain": chain, "faults": faults, "class": "fault-chain"}
 
 
+def scripted_cases():
+    """one deterministic case per mechanism the check claims to catch (run first, on every seed)"""
+    def c(method="GET", start_o=0, chain=(), **kw):
+        d = {"max": 10, "allow": True, "trust": False, "method": method, "start": {"o": start_o, "path": "/d/z0", "cred": None},
+             "params": None, "headers": [], "cookies": None, "jar0": [], "body": {"kind": "none"}, "chain": list(chain),
+             "class": "scripted"}
+        d.update(kw)
+        return d
+
+    def hop(status, form, k, **loc):
+        loc.setdefault("path", f"/d/z{k}")
+        if form in ("abs", "absupper", "absport", "uri", "schemerel"):
+            loc.setdefault("cred", None)
+        return {"status": status, "loc": dict(form=form, **loc)}
+    secrets = [["Authorization", "Bearer CALLER-A"], ["Authorization", "Bearer CALLER-A2"], ["Cookie", "hc=1"],
+               ["Proxy-Authorization", "Basic CALLER-P"], ["Proxy-Authorization", "Basic CALLER-P2"]]
+    out = []
+    # origin comparison: other port / other scheme / other host / sub-domain, duplicates of every secret header
+    for o in (1, 2, 3, 5, 10):
+        out.append(c(chain=[hop(302, "abs", 1, o=o), hop(307, "abs", 2, o=0)], headers=secrets, cookies={"rc": "v"}))
+    # the default port spelled out is the same origin: secrets stay
+    out.append(c(chain=[hop(302, "absport", 1, o=0), hop(302, "absport", 2, o=2)], headers=secrets, cookies={"rc": "v"}))
+    out.append(c(start_o=2, chain=[hop(302, "absport", 1, o=2)], headers=secrets, cookies={"rc": "v"}))
+    # statuses that are NOT redirects, with a Location: returned as they are
+    for st_ in (300, 304, 305, 306, 399, 201, 200, 404):
+        out.append(c(chain=[hop(st_, "abs", 1, o=3)], headers=secrets))
+        out.append(c(method="POST", chain=[hop(302, "relpath", 1), hop(st_, "relpath", 2)], body={"kind": "bytes", "data": "BODY"}))
+    # the table, one case per row incl. HEAD and the Content-Length drop
+    for st_ in REDIRECTS:
+        for m, kind in (("POST", "bytes"), ("PUT", "bytesio"), ("HEAD", "none"), ("GET", "none"), ("DELETE", "str"), ("PUT", "agen")):
+            hs = [["Content-Length", "@len"]] if kind in ("bytes", "str") else []
+            out.append(c(method=m, chain=[hop(st_, "relpath", 1), hop(st_, "abs", 2, o=3)], body={"kind": kind, "data": "BODY-" + kind}, headers=hs))
+    # documented defaults: max_redirects=10 (not passed), allow_redirects=True (not passed); boundary 9 / 10 / 11 redirects
+    for n in (9, 10, 11):
+        out.append(c(chain=[hop(302, "relpath", k + 1) for k in range(n)], max=None, allow_default=True))
+        out.append(c(chain=[hop(303, "relpath", k + 1) for k in range(n)], max=10))
+    # refusals
+    for form, raws in (("nonhttp", NONHTTP_LOCS), ("invalid", INVALID_LOCS), ("badorigin", BADORIGIN_LOCS)):
+        for raw in raws:
+            out.append(c(chain=[hop(302, "relpath", 1), {"status": 301, "loc": {"form": form, "raw": raw}}, hop(302, "relpath", 3)]))
+    # URL credentials: override on a later hop, same-origin carry, cross-origin drop, user-only / password-only
+    for cred in (["u1", "p1"], ["u1", ""], ["", "p1"]):
+        out.append(c(chain=[hop(302, "abs", 1, o=0, cred=cred), hop(302, "relpath", 2), hop(302, "abs", 3, o=3)],
+                     headers=[["Authorization", "Bearer CALLER-A"]]))
+        out.append(c(start_o=3, chain=[hop(302, "abs", 1, o=3, cred=cred), hop(302, "abs", 2, o=3, cred=["u2", "p2"])]))
+    # params only on the first hop; caller Host only on the first hop; jar re-selection after a Set-Cookie in the chain
+    out.append(c(chain=[hop(302, "relpath", 1), hop(302, "query", 2, q="z=1")], params={"q": "1"}, headers=[["Host", "custom.test"]]))
+    ch = [hop(302, "relpath", 1), hop(302, "abs", 2, o=5), hop(302, "abs", 3, o=0)]
+    ch[0]["set_cookie"] = ["s0=v0; Path=/", "t0=w0; Path=/d/z1"]
+    ch[1]["set_cookie"] = ["s0=v1; Path=/"]
+    out.append(c(chain=ch, jar0=[[0, "j0", "jar0"], [5, "j5", "jar5"]], cookies={"j0": "reqwins"}))
+    # responses with a body still in flight: followed redirect, TooManyRedirects, refusal
+    for maxr, last in ((10, hop(302, "relpath", 2)), (2, hop(302, "relpath", 2)), (10, {"status": 302, "loc": {"form": "nonhttp", "raw": "ftp://b.test/x"}})):
+        ch = [hop(302, "relpath", 1), last]
+        ch[0]["body"] = -40
+        ch[1]["body"] = -40
+        out.append(c(chain=ch, max=maxr))
+    # trust_env: netrc for the first host only / for both, caller Authorization wins
+    out.append(c(trust=True, chain=[hop(302, "abs", 1, o=5), hop(302, "abs", 2, o=3), hop(302, "abs", 3, o=0)], followup=[0, 3, 5]))
+    out.append(c(trust=True, chain=[hop(302, "abs", 1, o=3)], headers=[["Authorization", "Bearer CALLER-A"]]))
+    # Location spellings that need (re)quoting, with requote_redirect_url on (default) and off
+    out.append(c(chain=[{"status": 302, "loc": {"form": "quoted", "raw": "/d/a%20b?x=%7E1", "path": "/d/a%20b?x=~1"}}]))
+    out.append(c(chain=[{"status": 302, "loc": {"form": "quoted", "raw": "/d/a%20b?x=%7E1", "path": "/d/a%20b?x=%7E1"}}], requote=False))
+    out.append(c(chain=[{"status": 302, "loc": {"form": "quoted", "raw": "/d/%7Euser/x", "path": "/d/~user/x"}}]))
+    out.append(c(chain=[{"status": 302, "loc": {"form": "quoted", "raw": "/d/%7Euser/x", "path": "/d/%7Euser/x"}}], requote=False))
+    return out
+
+
 def corpus_cases():
     d = os.path.join(os.path.dirname(os.path.dirname(os.path.abspath(__file__))), "corpus", "C17")
     out = []
@@ -1447,7 +1588,7 @@ def check(ctx):
     for v in ("http_proxy", "https_proxy", "HTTP_PROXY", "HTTPS_PROXY", "all_proxy", "ALL_PROXY"):
         os.environ.pop(v, None)
     rng = ctx.rng
-    cases = corpus_cases()
+    cases = corpus_cases() + scripted_cases()
     table = list(systematic_table())
     walks = list(origin_walks())
     counters = list(counter_cases())
